@@ -430,6 +430,7 @@ type FuncContract struct {
 	Uses      []string
 	ParamContracts map[string]string
 	CallAsserts map[string][]*Clause
+	GhostSets []*Clause
 	PkgPath   string
 	HavocAll  bool
 	Cover     bool
@@ -512,7 +513,7 @@ func NewContractSet() *ContractSet {
 }
 
 var topKeywords = map[string]bool{"func": true, "extern": true, "trusted": true, "spec": true, "ghost": true, "axiom": true, "lemma": true, "const": true, "guarded": true, "pred": true}
-var clauseKeywords = map[string]bool{"requires": true, "ensures": true, "modifies": true, "loop": true, "safety": true, "pure": true, "noeffect": true, "for": true, "bounded": true, "havocall": true, "noreturn": true, "uses": true, "option": true, "calls": true, "at": true}
+var clauseKeywords = map[string]bool{"requires": true, "ensures": true, "modifies": true, "loop": true, "safety": true, "pure": true, "noeffect": true, "for": true, "bounded": true, "havocall": true, "noreturn": true, "uses": true, "option": true, "calls": true, "at": true, "ghostset": true}
 
 // ParseContractFile reads the //@ lines of a file. pkgPath is the import path
 // of the package the file belongs to ("" for shared spec files).
@@ -598,6 +599,21 @@ func (cs *ContractSet) ParseContractFile(path, pkgPath string) error {
 			} else if cur != nil {
 				cur.Uses = append(cur.Uses, splitList(rest)...)
 			}
+		case "ghostset":
+			// ghostset G(x) := expr  -- ghost assignment performed at every normal return of the function
+			k := strings.Index(rest, ":=")
+			if cur == nil || k < 0 {
+				return fail(fmt.Errorf("ghostset G(x) := expr"))
+			}
+			lhs, err := ParseCExpr(strings.TrimSpace(rest[:k]))
+			if err != nil {
+				return fail(err)
+			}
+			rhs, err := ParseCExpr(strings.TrimSpace(rest[k+2:]))
+			if err != nil {
+				return fail(err)
+			}
+			cur.GhostSets = append(cur.GhostSets, &Clause{Kind: "ghostset", Src: rest, Expr: rhs, Exprs: []CExpr{lhs}, File: path, Line: rl.line})
 		case "at":
 			// at <callee> requires [label] expr : extra obligation at every call of <callee> in this function
 			parts := strings.Fields(rest)
